@@ -413,17 +413,61 @@ const handlers = {
         sr.applySlotUpdates()
       }
     }
+    // viaEngine (1 = default update mode, 2 = 'virtualTree'): the instance is driven through the real template engine of
+    // tmpl/index.ts — initValues(D0), then updateValues(D, changes) with one replace-type DataChange per marked leaf of the
+    // step's update-path tree (a splice-shaped mark counts as a replace of the whole array, `true` as a replace of every
+    // top-level field). The engine builds its own tree from the changes, or — default mode, one top-level change, field
+    // advertised — runs the binding-map updaters instead. The data object is ONE live object mutated at its top level,
+    // as data_proxy.ts does, so closures of the creation pass see current data.
+    let engInst = null
+    let live = null
+    const changesOf = (t, prev, next) => {
+      const out = []
+      const at = (d, path) => path.reduce((x, k) => (x == null ? undefined : x[k]), d)
+      const walk = (n, path) => {
+        if (n === true || n === 'T' || (n && typeof n === 'object' && Array.isArray(n.$splice)) || typeof n !== 'object' || n === null) {
+          if (n === null || n === undefined) return
+          if (path.length === 0) {
+            const keys = new Set([...Object.keys(prev || {}), ...Object.keys(next || {})])
+            for (const k of keys) out.push([[k], next[k], undefined, undefined])
+          } else out.push([path, at(next, path), undefined, undefined])
+          return
+        }
+        for (const k of Object.keys(n)) walk(n[k], path.concat(/^(0|[1-9][0-9]*)$/.test(k) ? Number(k) : k))
+      }
+      walk(t, [])
+      return out
+    }
     try {
-      inst = instantiate(G, req.entry)
-      inst.w.create(datas[0])
+      if (req.viaEngine) {
+        const eng = new GlassEaselTemplateEngine()
+        const tmpl = eng.create({ is: 'c', _$template: { content: G[req.entry], groupList: G, updateMode: req.viaEngine === 2 ? 'virtualTree' : '' } }, { externalComponent: false })
+        const root = new stub.ShadowRoot()
+        engInst = tmpl.createInstance({}, () => root)
+        installRecorders(engInst.procGenWrapper)
+        inst = { w: engInst.procGenWrapper, root }
+        live = Object.assign({}, datas[0])
+        engInst.initValues(live)
+      } else {
+        inst = instantiate(G, req.entry)
+        inst.w.create(datas[0])
+      }
     } catch (e) {
       return { steps: [], createThrew: String(e && e.stack || e) }
     }
     if (dupKeys()) return { steps: [], domainExit: 'non-unique-keys' }
     const steps = []
+    const engineUpdate = (i) => {
+      const changes = changesOf(req.trees[i - 1], datas[i - 1], datas[i])
+      for (const k of Object.keys(live)) if (!(k in datas[i])) delete live[k]
+      for (const k of Object.keys(datas[i])) live[k] = datas[i][k]
+      const viaMap = changes.length === 1 && changes[0][0].length === 1 && req.viaEngine === 1 && engInst.bindingMapGen && !!engInst.bindingMapGen[changes[0][0][0]]
+      engInst.updateValues(live, changes)
+      return { n: changes.length, viaMap }
+    }
     for (let i = 1; i < datas.length; i += 1) {
       const U = reviveTree(req.trees[i - 1])
-      let updThrew = null; let freshThrew = null; let fresh; let cur
+      let updThrew = null; let freshThrew = null; let fresh; let cur; let engInfo = null
       const sops = (req.slotOps && req.slotOps[i - 1]) || []
       try {
         const before = planSlotOps(sops.filter((o) => o.before))
@@ -433,7 +477,8 @@ const handlers = {
         const afterOps = sops.filter((o) => !o.before)
         const hosts = afterOps.length ? dynHosts(inst.root) : []
         const after = planSlotOps(afterOps)
-        inst.w.update(datas[i], U)
+        if (engInst) engInfo = engineUpdate(i)
+        else inst.w.update(datas[i], U)
         if (after.length) execSlotActions(after, hosts)
         cur = dumpRoot(inst.root)
       } catch (e) { updThrew = String(e && e.stack || e) }
@@ -448,7 +493,7 @@ const handlers = {
         break
       }
       cmpTrees(fresh, cur, '', m, { paths: true })
-      steps.push({ step: i, mismatches: m.slice(0, 30), nodes: countNodes(cur) })
+      steps.push({ step: i, mismatches: m.slice(0, 30), nodes: countNodes(cur), engine: engInfo })
       if (m.length) break
     }
     return { steps, mism }
